@@ -354,6 +354,7 @@ structure PCfg where
   mf : Nat
   retries : Nat
   ups : List PUp
+  cb : Bool := false   -- a circuit breaker is configured (`h.CB`, handed to every upstream by `provisionUpstream`)
 deriving DecidableEq, Repr
 
 /-- are passive health checks configured at all (then every upstream gets the policy)? -/
@@ -385,6 +386,8 @@ def decAt : List Nat → Nat → List Nat
 inductive Ev where
   | arrive (hold get : Bool)  -- a request arrives; held at the backend if it gets there?; GET (else POST)
   | fin (k : Nat)             -- the backend answers the k-th held request
+  | trip                      -- the circuit breaker opens (`OK()` = false)
+  | untrip                    -- … and closes again
 deriving DecidableEq, Repr
 
 /-- the error the loop carries from one iteration to the next -/
@@ -414,7 +417,11 @@ structure PState where
   fails : List Nat            -- recent failures per address
   held : List (Option Nat)    -- per held-request so far: the address it is in flight on
   draws : List Nat
+  cb : Option Bool := none    -- the handler's circuit breaker, if one is configured: is it closed?
 deriving DecidableEq, Repr
+
+/-- the pool `Select` sees in state `s`: every upstream consults the handler's circuit breaker -/
+def poolOf (c : PCfg) (s : PState) : Pool := (mkPool c c.ups s.loads s.fails).map (fun u => { u with cb := s.cb })
 
 def setNone : List (Option Nat) → Nat → List (Option Nat)
   | [], _ => []
@@ -444,12 +451,12 @@ def statusOf : PErr → Nat
   | _ => 502
 
 /-- what `Select` returns in state `s` -/
-def selRes (c : PCfg) (s : PState) : Res := (select true s.pol (mkPool c c.ups s.loads s.fails) s.draws).res
+def selRes (c : PCfg) (s : PState) : Res := (select true s.pol (poolOf c s) s.draws).res
 
 /-- the state after that `Select`: policy counters and draws advanced -/
 def afterSel (c : PCfg) (s : PState) : PState :=
-  { s with pol := (select true s.pol (mkPool c c.ups s.loads s.fails) s.draws).pol,
-           draws := (select true s.pol (mkPool c c.ups s.loads s.fails) s.draws).draws }
+  { s with pol := (select true s.pol (poolOf c s) s.draws).pol,
+           draws := (select true s.pol (poolOf c s) s.draws).draws }
 
 /-- no upstream: the error of the previous iteration is kept, or it is "no upstreams available" -/
 def carried (prev : PErr) : PErr := if prev = .none then .noUpstream else prev
@@ -510,12 +517,14 @@ def pstep (c : PCfg) (s : PState) : Ev → EvOut × PState
       (.done, { s with loads := decAt s.loads i, held := setNone s.held k,
                         fails := dropFails c (setNone s.held k) s.fails })
     | _ => (.idle, s)
+  | .trip => (.done, { s with cb := s.cb.map (fun _ => false) })
+  | .untrip => (.done, { s with cb := s.cb.map (fun _ => true) })
 
 def prun (c : PCfg) : PState → List Ev → List EvOut × PState
   | s, [] => ([], s)
   | s, e :: es => ((pstep c s e).1 :: (prun c (pstep c s e).2 es).1, (prun c (pstep c s e).2 es).2)
 
 def pinit (p : Policy) (c : PCfg) (ds : List Nat) : PState :=
-  ⟨p, c.ups.map (fun _ => 0), c.ups.map (fun _ => 0), [], ds⟩
+  ⟨p, c.ups.map (fun _ => 0), c.ups.map (fun _ => 0), [], ds, if c.cb then some true else none⟩
 
 end CaddyModel.C08
